@@ -8,6 +8,8 @@ rows = ["| seeded change | property | what it does | detection by the quick chec
 for f in sorted(glob.glob(os.path.join(V, "seeded", "*", "meta.json"))):
     m = json.load(open(f))
     det = "; ".join("%s %s" % (k, v) for k, v in m["detected_by"].items())
+    if m.get("strengthened"):
+        det = "first MISSED - %s; after that: %s" % (m["strengthened"], det)
     rows.append("| `%s` | %s | %s | %s |" % (m["id"], m["property"], m["what"].replace("|", "/"), det.replace("|", "/")))
 p = os.path.join(V, "DESIGN.md")
 t = open(p).read()
